@@ -22,9 +22,10 @@
 //!              the set of live connections changed is reported `unsettled` (not judged).
 //!
 //! Refiller tie, one line per node at the end of a cluster's life:
-//!   R <nr_shards>.<msb> <pool>/<shard-aware port disallowed> <kill rounds k<n>,.. | -> | <events> <final shards> 
-//!     events: ;-joined, in the order the mock saw them:  r<conn>.<shard>.<shard-aware port 0|1> (handshake of a pool
-//!     connection completed) | b<conn>.<shard> (the mock cut it); final shards: +-joined server-side shards of the
+//!   R <initial nr_shards>.<msb> <pool>/<shard-aware port disallowed> <rounds: k<n> cut n connections | s<nr>k<n> the node
+//!     first changes its shard count to nr (resharding),.. | -> | <events> <final shards>
+//!     events: ;-joined, in the order the mock saw them:  r<conn>.<shard>.<shard-aware port 0|1>.<nr_shards reported> (handshake
+//!     of a pool connection completed) | b<conn>.<shard>.<nr_shards> (the mock cut it); final shards: +-joined server-side shards of the
 //!     established pool | _
 //!
 //! Pool tie, one line per (node, shard) probed in the pass that established the pools:
@@ -506,12 +507,14 @@ struct Running {
     /// pool-tie lines of the pass that established `judged`
     ptie: Vec<(String, String)>,
     /// connection life cycle as the mock saw it: conn id -> (node, shard, shard-aware port, handshake done)
-    life: BTreeMap<u64, (usize, u16, bool, bool)>,
+    life: BTreeMap<u64, (usize, u16, bool, bool, u16)>,
     control: HashSet<u64>,
     /// (node, 'r' | 'b', conn id) in trace order
     events: Vec<(usize, char, u64)>,
     /// kill rounds applied per node
-    rounds: Vec<Vec<usize>>,
+    rounds: Vec<Vec<String>>,
+    /// shard count each node started with
+    nr0: Vec<u16>,
 }
 
 const SENT_TEXT: &str = "INSERT INTO zzks.zz (c0) VALUES (?)";
@@ -571,7 +574,7 @@ impl Running {
             }
         };
         let probe_pol = Arc::new(ProbePolicy { target: Mutex::new((host_id_for(0), 0)) });
-        let mut r = Running { c: c.clone(), cluster, session, sentinel: None, round: 0, probe: None, probe_pol, judged: BTreeMap::new(), ptie: vec![], life: BTreeMap::new(), control: HashSet::new(), events: vec![], rounds: vec![vec![]; c.nodes.len()] };
+        let mut r = Running { c: c.clone(), cluster, session, sentinel: None, round: 0, probe: None, probe_pol, judged: BTreeMap::new(), ptie: vec![], life: BTreeMap::new(), control: HashSet::new(), events: vec![], rounds: vec![vec![]; c.nodes.len()], nr0: c.nodes.iter().map(|n| n.nr).collect() };
         if !r.settle(false).await {
             r.stop();
             return Err("unsettled-initial".into());
@@ -625,7 +628,7 @@ impl Running {
         for e in &tr {
             match &e.ev {
                 Ev::Open { shard_aware_port, .. } => {
-                    self.life.insert(e.conn_id, (e.node, e.shard, *shard_aware_port, false));
+                    self.life.insert(e.conn_id, (e.node, e.shard, *shard_aware_port, false, self.c.nodes[e.node].nr));
                 }
                 Ev::Out { opcode, .. } if *opcode == op::READY => {
                     if let Some(l) = self.life.get_mut(&e.conn_id) {
@@ -653,8 +656,8 @@ impl Running {
         let n = &self.c.nodes[i];
         let case = format!(
             "R {:x}.{:x} {}{:x}/{} {}",
-            n.nr, n.msb, if self.c.cfg.per_shard { "S" } else { "H" }, self.c.cfg.pool_n, b01(self.c.cfg.no_sap),
-            if self.rounds[i].is_empty() { "-".to_string() } else { self.rounds[i].iter().map(|k| format!("k{:x}", k)).collect::<Vec<_>>().join(",") }
+            self.nr0[i], n.msb, if self.c.cfg.per_shard { "S" } else { "H" }, self.c.cfg.pool_n, b01(self.c.cfg.no_sap),
+            if self.rounds[i].is_empty() { "-".to_string() } else { self.rounds[i].join(",") }
         );
         let evs: Vec<String> = self
             .events
@@ -662,7 +665,7 @@ impl Running {
             .filter(|(nd, _, cid)| *nd == i && !self.control.contains(cid))
             .map(|(_, k, cid)| {
                 let l = self.life[cid];
-                if *k == 'r' { format!("r{:x}.{:x}.{}", cid, l.1, b01(l.2)) } else { format!("b{:x}.{:x}", cid, l.1) }
+                if *k == 'r' { format!("r{:x}.{:x}.{}.{:x}", cid, l.1, b01(l.2), l.4) } else { format!("b{:x}.{:x}.{:x}", cid, l.1, l.4) }
             })
             .collect();
         let mut fin: Vec<u16> = self.judged.values().filter(|(nd, _)| *nd == i).map(|(_, s)| *s).collect();
@@ -676,27 +679,51 @@ impl Running {
             ),
         )
     }
-    /// cuts the `count` oldest pool connections of node i and waits until the pools are established again
-    async fn kill_round(&mut self, i: usize, count: usize, shift: usize) -> bool {
+    /// cuts the `count` oldest pool connections of node i and waits until the pools are established again;
+    /// with `reshard` the node first changes its shard count: the replacement connections report the new count
+    /// and the driver's pool is rebuilt (maybe_reshard)
+    async fn kill_round(&mut self, i: usize, count: usize, shift: usize, reshard: Option<u16>) -> bool {
         let ids: Vec<u64> = self.judged.iter().filter(|(_, (nd, _))| *nd == i).map(|(id, _)| *id).take(count).collect();
+        if let Some(nr) = reshard {
+            // every connection accepted so far is on record with the old shard count
+            let _ = self.drain();
+            self.cluster.update_spec(|sp| sp.nodes[i].nr_shards = nr);
+            self.c.nodes[i].nr = nr;
+            self.rounds[i].push(format!("s{:x}k{:x}", nr, ids.len()));
+        } else {
+            self.rounds[i].push(format!("k{:x}", ids.len()));
+        }
         for id in &ids {
             self.cluster.close_connection(i, *id, CutKind::Rst);
         }
-        self.rounds[i].push(ids.len());
         // shift the mock's plain-port round-robin by a few raw TCP connections (accepted, never used): the
         // replacements opened through the plain port then land on shards that are still covered -> excess
         // connections, kept until the pool is full and trimmed then
-        if shift > 0 {
-            for _ in 0..shift {
-                if let Ok(s) = tokio::net::TcpStream::connect(self.cluster.contact_point(i)).await {
-                    drop(s);
-                }
+        for _ in 0..shift {
+            if let Ok(s) = tokio::net::TcpStream::connect(self.cluster.contact_point(i)).await {
+                drop(s);
             }
         }
         // the cut connections must be gone from the mock before the counts can be trusted
         let t = Instant::now();
         while t.elapsed() < Duration::from_secs(3) && self.live().keys().any(|c| ids.contains(c)) {
             tokio::time::sleep(Duration::from_millis(2)).await;
+        }
+        if let Some(nr) = reshard {
+            // the driver learns the new shard count from the first replacement connection and then rebuilds the
+            // pool: wait until no connection of the old configuration is left
+            let t = Instant::now();
+            loop {
+                let _ = self.drain();
+                let mine: Vec<u64> = self.live().iter().filter(|(_, (nd, _))| *nd == i).map(|(c, _)| *c).collect();
+                if !mine.is_empty() && mine.iter().all(|c| self.life.get(c).is_some_and(|l| l.4 == nr)) {
+                    break;
+                }
+                if t.elapsed() > Duration::from_secs(8) {
+                    return false;
+                }
+                tokio::time::sleep(Duration::from_millis(3)).await;
+            }
         }
         self.establish().await
     }
@@ -891,7 +918,9 @@ impl Running {
         self.cluster.script(
             NodeSel::Any,
             SENT_TEXT,
-            vec![Action::TabletPayload(tablet_payload_value(-100, 100, &[(host_id_for(0), round)])), Action::Void],
+            // shard 1000 + round: no computed shard can be that (before the sentinel tablet exists the lookup falls
+            // back to the ring and yields ONE replica with a computed shard < 8, which must not pass for it)
+            vec![Action::TabletPayload(tablet_payload_value(-100, 100, &[(host_id_for(0), 1000 + round)])), Action::Void],
         );
         if self.session.execute_unpaged(self.sentinel.as_ref().unwrap(), (1i32,)).await.is_err() {
             return false;
@@ -900,7 +929,7 @@ impl Running {
         while t.elapsed() < Duration::from_secs(3) {
             let st = self.session.get_cluster_state();
             let e = st.get_token_endpoints("zzks", "zz", Token::new(0));
-            if e.len() == 1 && e[0].1 == round as u32 {
+            if e.len() == 1 && e[0].0.host_id == host_id_for(0) && e[0].1 == (1000 + round) as u32 {
                 return true;
             }
             tokio::time::sleep(Duration::from_millis(1)).await;
@@ -1260,7 +1289,7 @@ fn gen_tablet_ops(r: &mut Rng, c: &ClusterC, aim: &[i64]) -> Vec<TabOp> {
 async fn run_cluster(r: &mut Rng, c: &ClusterC, nkeys: usize, out: &mut Out) {
     let nst = r.range(1, 3) as usize;
     let stmts: Vec<StmtC> = (0..nst).map(|i| gen_stmt(r, c, i as u32)).collect();
-    let cf = c.fields();
+    let mut cf = c.fields();
     // a scenario that cannot be set up is retried once (environment); then it is a counted not-run
     let mut run = match Running::start(c, &stmts).await {
         Ok(x) => x,
@@ -1362,7 +1391,28 @@ async fn run_cluster(r: &mut Rng, c: &ClusterC, nkeys: usize, out: &mut Out) {
             // one cut connection + a shifted round-robin on the plain port = a guaranteed surplus connection
             let count = if c.cfg.no_sap && c.cfg.per_shard && r.bool() { 1 } else { match r.below(4) { 0 => have, 1 => 1, _ => r.range(1, have as u64) as usize } };
             let shift = if c.nodes[i].nr > 1 && r.chance(2, 3) { r.range(1, c.nodes[i].nr as u64 - 1) as usize } else { 0 };
-            if !run.kill_round(i, count, shift).await {
+            // resharding: the node comes back with another shard count (only between sharded configurations:
+            // the shard-aware listener exists from the start or never)
+            let cur = run.c.nodes[i].nr;
+            let reshard = if cur > 0 && r.chance(1, 4) {
+                let mut nr = r.range(1, 8) as u16;
+                if nr == cur {
+                    nr = nr % 8 + 1;
+                }
+                Some(nr)
+            } else {
+                None
+            };
+            let (shift, mut count) = if reshard.is_some() { (0, count.max(1)) } else { (shift, count) };
+            // several replacement connections aimed (through the shard-aware port, with the OLD shard count) at
+            // distinct shards of a node that now has only one or two: they collide, and the surplus of a
+            // connection that was asked for a shard is dropped at once
+            let mut reshard = reshard;
+            if reshard.is_some() && c.cfg.per_shard && !c.cfg.no_sap && have >= 3 && cur > 2 && r.bool() {
+                reshard = Some(r.range(1, 2) as u16);
+                count = have - 1;
+            }
+            if !run.kill_round(i, count, shift, reshard).await {
                 out.case(&format!("K {} {} {} {}", cf, st.field(), tabs_s(&hist[j]), "n"), "skip:refill-not-established -");
                 broken = true;
                 break;
@@ -1370,6 +1420,8 @@ async fn run_cluster(r: &mut Rng, c: &ClusterC, nkeys: usize, out: &mut Out) {
             for (case, o) in &run.ptie {
                 out.case(case, o);
             }
+            // after a resharding the cluster of the following requests has the new shard count
+            cf = run.c.fields();
         }
     }
     // the refiller tie: the whole life of every node's pool
@@ -1422,8 +1474,15 @@ async fn replay_line(case: &str, out: &mut Out) {
                 let mut ok = true;
                 if f[3] != "-" {
                     for k in f[3].split(',') {
-                        let want = usize::from_str_radix(&k[1..], 16).unwrap();
-                        if !run.kill_round(0, want, 1).await {
+                        let (reshard, kk) = match k.strip_prefix('s') {
+                            Some(rest) => {
+                                let (nr, kk) = rest.split_once('k').unwrap();
+                                (Some(u16::from_str_radix(nr, 16).unwrap()), kk.to_string())
+                            }
+                            None => (None, k[1..].to_string()),
+                        };
+                        let want = usize::from_str_radix(&kk, 16).unwrap();
+                        if !run.kill_round(0, want, if reshard.is_some() { 0 } else { 1 }, reshard).await {
                             ok = false;
                             break;
                         }
